@@ -4,6 +4,7 @@
 mod util;
 mod c_inflights;
 mod c_quorum;
+mod c_raftlog;
 
 fn main() {
     let args: Vec<String> = std::env::args().collect();
@@ -16,6 +17,7 @@ fn main() {
     match args[1].as_str() {
         "inflights" => c_inflights::main(rest),
         "quorum" => c_quorum::main(rest),
+        "raftlog" => c_raftlog::main(rest),
         other => {
             eprintln!("unknown component {}", other);
             std::process::exit(2);
